@@ -6,6 +6,8 @@ import os, sys, io, hashlib, random, re
 import numpy as np
 from . import common, gen, chkgen, refmodel
 
+RECIPE2 = ('import numpy as np\ndef recipe(fi, arr):\n    """sq_new df_new"""\n'
+           '    return np.stack([arr[..., fi["f0"]] ** 2 + arr[..., fi["f1"]], arr[..., fi["f1"]] - arr[..., fi["f0"]]], axis=-1)\n')
 RECIPE = ('def recipe(fi, arr):\n    """sq_new"""\n    return arr[..., fi["f0"]] ** 2 + arr[..., fi["f1"]]\n')
 
 
@@ -233,15 +235,16 @@ class ChefS(Scenario):
 
     def prepare(self, work, seed):
         m, p = _plt(work, "plt_ch", seed)
+        # two new fields together with kept fields (the result rows are then wider than either alone)
         rp = os.path.join(work, "recipe_s.py")
         with open(rp, "w") as f:
-            f.write(RECIPE)
+            f.write(RECIPE2)
         return {"p": p, "recipe": rp}
 
     def run(self, ctx, out, serial=False):
         from amr_kitchen.chef import Chef
         o = os.path.join(out, "cooked")
-        Chef(plotfile=ctx["p"], recipe=ctx["recipe"], outfile=o, kept_fields="f2", serial=serial).cook()
+        Chef(plotfile=ctx["p"], recipe=ctx["recipe"], outfile=o, kept_fields="f2 f0", serial=serial).cook()
         return {"values": None, "paths": [o]}
 
 
